@@ -27,7 +27,10 @@ def observe(cli, types, external=(), config=None, files=None):
             out = g.output
             if out.mods.get("types.ts") is None:
                 return {"blocked": "no types.ts"}
-            entry = {"decl": sorted(c07.declared(out, mode)), "errors": len(out.mods["types.ts"].errors)}
+            keep = set()
+            for (_i, _t) in types:
+                keep |= rg.named_in(_t)
+            entry = {"decl": sorted(c07.declared(out, mode, keep=keep)), "errors": len(out.mods["types.ts"].errors)}
             if mode == "none":
                 ifs = out.interfaces()
                 entry["params"] = sorted(n for n in ifs if n.endswith("Params"))
@@ -230,7 +233,7 @@ def run_graph_names(a):
         try:
             if g.run.rc != 0 or g.output.mods.get("types.ts") is None or g.output.mods["types.ts"].errors:
                 return {"blocked": True}
-            names[mode] = sorted(c07.declared(g.output, mode))
+            names[mode] = sorted(c07.declared(g.output, mode, keep=info["all"]))
         finally:
             g.cleanup()
     return {"none": names["none"], "zod": names["zod"], "files": [[p, t] for p, t in files], "n": info["n"]}
